@@ -302,6 +302,91 @@ pub fn c15_histories(tier: Tier) -> Vec<Vec<Op>> {
             }
         }
     }
+    // submissions that differ from a legal move in the promotion field only, and the root's own
+    // pseudo-legal-but-illegal moves, straight after set_board: all refused, board unchanged, and a
+    // legal move afterwards is still accepted and counted
+    {
+        let (roots, _) = crate::roots::all_roots();
+        for r in roots.iter() {
+            let fen = r.pos.to_fen();
+            if parse_board(&fen).is_err() {
+                continue;
+            }
+            let legal = r.pos.legal_moves();
+            let mut bad: Vec<Mv> = vec![];
+            let mut seen_promo = std::collections::BTreeSet::new();
+            for m in &legal {
+                if m.promo.is_some() {
+                    if seen_promo.insert((m.from, m.to)) {
+                        bad.push(Mv::new(m.from, m.to, None));
+                    }
+                }
+            }
+            if let Some(m) = legal.iter().find(|m| m.promo.is_none()) {
+                for pc in [refchess::Pc::N, refchess::Pc::B, refchess::Pc::R, refchess::Pc::Q] {
+                    bad.push(Mv::new(m.from, m.to, Some(pc)));
+                }
+            }
+            bad.extend(r.pos.pseudo_illegal().into_iter().take(6));
+            bad.retain(|m| !legal.contains(m));
+            if bad.is_empty() {
+                continue;
+            }
+            let mut h = vec![Op::SetBoard(fen.clone())];
+            h.extend(bad.iter().map(|m| Op::Move(*m)));
+            if let Some(m) = legal.first() {
+                h.push(Op::Move(*m));
+            }
+            out.push(h);
+        }
+    }
+    // roots carrying an en-passant marker can never recur themselves, but the marker-less twin does:
+    // set_board(root with marker), then cycles; the third occurrence of the twin is two plies later
+    // than a counter that took the marked root for its first occurrence would say
+    {
+        let (roots, _) = crate::roots::all_roots();
+        for r in roots.iter() {
+            if r.pos.ep.is_none() || r.name.starts_with("perft0") || r.name.starts_with("perft27") {
+                continue;
+            }
+            let fen = r.pos.to_fen();
+            if parse_board(&fen).is_err() {
+                continue;
+            }
+            let mut found = 0;
+            'eps: for m1 in r.pos.legal_moves() {
+                let p1 = r.pos.make(m1);
+                for m2 in p1.legal_moves() {
+                    let p2 = p1.make(m2);
+                    for m3 in p2.legal_moves() {
+                        if m3.from != m1.to || m3.to != m1.from {
+                            continue;
+                        }
+                        let p3 = p2.make(m3);
+                        for m4 in p3.legal_moves() {
+                            if m4.from != m2.to || m4.to != m2.from {
+                                continue;
+                            }
+                            let p4 = p3.make(m4);
+                            let mut twin = r.pos.clone();
+                            twin.ep = None;
+                            if p4.identity() == twin.identity() {
+                                let mut h = vec![Op::SetBoard(fen.clone())];
+                                for _ in 0..4 {
+                                    h.extend([Op::Move(m1), Op::Move(m2), Op::Move(m3), Op::Move(m4)]);
+                                }
+                                out.push(h);
+                                found += 1;
+                                if found >= tier.pick(4, 20) {
+                                    break 'eps;
+                                }
+                            }
+                        }
+                    }
+                }
+            }
+        }
+    }
     // four-ply cycles through every catalogue root: set_board(root), then each cycle three times,
     // so that the installed position (and the positions on the cycle) reach their third occurrence
     {
@@ -413,7 +498,7 @@ pub fn run_c15(args: &crate::Args) -> i32 {
             "traces_validated_against_impl": hs.len(),
             "evaluations": hs.len(),
             "distinct_nontrivial": with_flag,
-            "rule": "every maximal history over three move alphabets from a fresh plugin engine (knight shuffles to depth 16/20 so positions must recur; knights + rook h1-g1-h1 / h8-g8-h8 to depth 12/14 so placements recur with different castling rights; a rich alphabet with double steps, capture and castling to depth 6/7), every alphabet move that is illegal at a leaf submitted there, set_board of three boards before and after shuffling followed by shuffles to depth 12/14, and every knight-shuffle history of depth 12/14 with one or two illegal submissions inserted at every position; set_board of every catalogue root followed by every legal move sequence of length <= 2 (promotions, en passant, castling through the stable move encoding); set_board of every catalogue root followed by up to 8 (thorough 40) four-ply cycles back to it, each played three times; the plugin's own suggestion submitted back at once, after other moves, and after a set_board to another position; a strided subset re-run with evaluate calls interleaved. Each step is checked against the reference board and an occurrence counter that counts the installed position. states/transitions = plugin calls checked; non-trivial = histories in which a third occurrence is reached.",
+            "rule": "every maximal history over three move alphabets from a fresh plugin engine (knight shuffles to depth 16/20 so positions must recur; knights + rook h1-g1-h1 / h8-g8-h8 to depth 12/14 so placements recur with different castling rights; a rich alphabet with double steps, capture and castling to depth 6/7), every alphabet move that is illegal at a leaf submitted there, set_board of three boards before and after shuffling followed by shuffles to depth 12/14, and every knight-shuffle history of depth 12/14 with one or two illegal submissions inserted at every position; set_board of every catalogue root followed by every legal move sequence of length <= 2 (promotions, en passant, castling through the stable move encoding); set_board of every catalogue root followed by up to 8 (thorough 40) four-ply cycles back to it, each played three times; roots with an en-passant marker followed by four cycles through their marker-less twin; after set_board of every catalogue root, submissions that differ from a legal move only in the promotion field (promotion squares without a piece, a plain move with each of the four pieces) and the root's own pseudo-legal-but-illegal moves, then a legal move; the plugin's own suggestion submitted back at once, after other moves, and after a set_board to another position; a strided subset re-run with evaluate calls interleaved. Each step is checked against the reference board and an occurrence counter that counts the installed position. states/transitions = plugin calls checked; non-trivial = histories in which a third occurrence is reached.",
             "histories": hs.len(),
             "third_occurrences_reached": flags,
             "exhaustive": true,
